@@ -372,6 +372,13 @@ dyn_sink!(sinks::statistics::Statistics<Q>);
 dyn_sink!(sinks::min::Min<f64>, f64);
 dyn_sink!(sinks::max::Max<f64>, f64);
 dyn_sink!(sinks::bounds::Bounds<f64>, f64);
+// ... and at the smallest machine integers
+dyn_sink!(sinks::min::Min<u8>, u8);
+dyn_sink!(sinks::max::Max<u8>, u8);
+dyn_sink!(sinks::bounds::Bounds<u8>, u8);
+dyn_sink!(sinks::min::Min<i8>, i8);
+dyn_sink!(sinks::max::Max<i8>, i8);
+dyn_sink!(sinks::bounds::Bounds<i8>, i8);
 impl DynSink for sinks::collect::Collect<Vec<Q>> {
     fn sink(&mut self, x: Val) {
         Sink::sink(self, Q::from_val(x))
@@ -417,6 +424,12 @@ pub fn build_sink(kind: &str) -> Option<Box<dyn DynSink>> {
         "sink_min_f64" => Box::new(sinks::min::Min::<f64>::default()),
         "sink_max_f64" => Box::new(sinks::max::Max::<f64>::default()),
         "sink_bounds_f64" => Box::new(sinks::bounds::Bounds::<f64>::default()),
+        "sink_min_u8" => Box::new(sinks::min::Min::<u8>::default()),
+        "sink_max_u8" => Box::new(sinks::max::Max::<u8>::default()),
+        "sink_bounds_u8" => Box::new(sinks::bounds::Bounds::<u8>::default()),
+        "sink_min_i8" => Box::new(sinks::min::Min::<i8>::default()),
+        "sink_max_i8" => Box::new(sinks::max::Max::<i8>::default()),
+        "sink_bounds_i8" => Box::new(sinks::bounds::Bounds::<i8>::default()),
         #[cfg(feature = "units")]
         "sink_unit_sum" => Box::new(UnitSumSink(sinks::unit_system::UnitSystem::from(SumSink::default()))),
         _ => return None,
